@@ -440,9 +440,6 @@ pub proof fn lemma_set_allow(s: Raw, o: Seq<char>, sp: Seq<char>, a: AllowanceRe
         if allow(old(storage).view(), owner@, spender@) is Some {
             lemma_set_allow(old(storage).view(), owner@, spender@, allow(old(storage).view(), owner@, spender@)->Some_0);
         }
-    }
-@insert_before "ALLOWANCES_SPENDER.update(" 1
-    proof {
         lemma_ns();
         assert(allow(old(storage).view(), owner@, spender@) == allow_s(old(storage).view(), spender@, owner@));
         assert(unpath(akey(owner@, spender@)) != unpath(skey(spender@, owner@)));
@@ -471,9 +468,6 @@ pub proof fn lemma_set_allow(s: Raw, o: Seq<char>, sp: Seq<char>, a: AllowanceRe
         lemma_set_allow(old(deps.storage).view(), info.sender@, spender@, AllowanceResponse {
             allowance: Uint128((allow_or_default(old(deps.storage).view(), info.sender@, spender@).allowance@ + amount@) as u128),
             expires: match expires { Some(e) => e, None => allow_or_default(old(deps.storage).view(), info.sender@, spender@).expires } });
-    }
-@insert_before "ALLOWANCES_SPENDER.update(" 1
-    proof {
         lemma_ns();
         assert(allow(old(deps.storage).view(), info.sender@, spender@) == allow_s(old(deps.storage).view(), spender@, info.sender@));
         assert(unpath(akey(info.sender@, spender@)) != unpath(skey(spender@, info.sender@)));
